@@ -83,16 +83,17 @@ def run(ctx):
     ctx.tlc_mc("PBNode", "MCPBNode.tla", "MCPBNode.cfg" if ctx.quick else "MCPBNodeT.cfg",
                timeout=600 if ctx.quick else 2400, coverage=not ctx.quick)
     # control: with the as-built deviation enabled the model itself must show the stale CID
-    r = ctx.tlc_mc("PBNode", "MCPBNode.tla", "MCPBNodeDev.cfg", timeout=600, expect_violation="CidFresh")
-    if r["violated"] != "CidFresh":
-        ctx.broken("model control: Dev_C11_NilBuilderKeepsCid enabled but CidFresh not violated (%s)" % r["violated"])
+    if not ctx.quick:
+        r = ctx.tlc_mc("PBNode", "MCPBNode.tla", "MCPBNodeDev.cfg", timeout=600, expect_violation="CidFresh")
+        if r["violated"] != "CidFresh":
+            ctx.broken("model control: Dev_C11_NilBuilderKeepsCid enabled but CidFresh not violated (%s)" % r["violated"])
     # ---------------- G generators
     cfgs = ["GenPBNode.cfg"] if ctx.quick else ["GenPBNodeD3F.cfg", "GenPBNodeD4.cfg"]
     sets = []
     for c in cfgs:
         name = {"GenPBNode.cfg": "bfs3lean", "GenPBNodeD3F.cfg": "bfs3full", "GenPBNodeD4.cfg": "bfs4lean"}[c]
         sets.append((name, ctx.tlc_gen("PBNode", "GenPBNode.tla", c, timeout=1800)))
-    nscr, length = (150, 20) if ctx.quick else (3000, 20)
+    nscr, length = (120, 20) if ctx.quick else (3000, 20)
     scripts = make_scripts(ctx.rng, nscr, length)
     sdir = ctx.specdir("PBNode")
     with open(os.path.join(sdir, "script.ndjson"), "w") as f:
